@@ -126,6 +126,13 @@ func (w *World) verifyFunc(fi *FuncInfo, props []string) *FuncResult {
 }
 
 func (w *World) verifyFuncOnce(fi *FuncInfo, props []string, prefix []int, pathMode bool) (res *FuncResult, taken, arity []int) {
+	if fi.Spec != nil && fi.Spec.Assumed {
+		// an assumed (trusted) contract on a repository function is what its callers see; the body itself is checked
+		// as an unannotated function (safety sweep), not against the assumption
+		cp := *fi
+		cp.Spec = nil
+		fi = &cp
+	}
 	res = &FuncResult{Key: fi.Key, HasSpec: fi.Spec != nil}
 	c := newCtx(w, shortKey(fi.Key))
 	c.props = props
